@@ -72,7 +72,7 @@ func (C15) New() any { return &C15Scenario{} }
 
 func (C15) Gen(t *tape.Tape, tier string) any {
 	sc := &C15Scenario{}
-	shapes := []gen.Shape{gen.ShapeFlat, gen.ShapeNested, gen.ShapeLogical}
+	shapes := []gen.Shape{gen.ShapeFlat, gen.ShapeNested, gen.ShapeLogical, gen.ShapeDyn, gen.ShapeGen}
 	sc.Workload = []string{"mixed", "onefile", "colwriters", "rowgroups", "async"}[t.Weighted(3, 4, 2, 2, 3)]
 	sc.Shared = GenWritePlan(t, shapes, 300)
 	if sc.Shared.NRows < 8 {
@@ -145,6 +145,8 @@ func (C15) Gen(t *tape.Tape, tier string) any {
 }
 
 // gatedFile is a stateless io.ReaderAt whose every call is a yield point.
+var freshBufferSize atomic.Int64
+
 type gatedFile struct {
 	data []byte
 	s    **sched.S
@@ -164,6 +166,8 @@ func (g *gatedFile) ReadAt(p []byte, off int64) (int, error) {
 	}
 	return n, nil
 }
+
+func (g *gatedFile) Size() int64 { return int64(len(g.data)) }
 
 // gatedSink collects bytes; every Write is a yield point. One per task.
 type gatedSink struct {
@@ -317,7 +321,9 @@ func c15Execute(sc *C15Scenario, c *core.Ctx, concurrent bool) (*c15exec, sched.
 				return
 			}
 			gf := &gatedFile{data: sink.buf, s: sp}
-			f, err := parquet.OpenFile(gf, int64(len(sink.buf)))
+			// a read buffer size nobody used before: the process-wide table of
+			// buffer pools gets a new entry while the other tasks look theirs up
+			f, err := parquet.OpenFile(gf, int64(len(sink.buf)), parquet.ReadBufferSize(4096+8*int(freshBufferSize.Add(1))))
 			if err != nil {
 				fail("open: %v", err)
 				return
@@ -356,11 +362,48 @@ func c15Execute(sc *C15Scenario, c *core.Ctx, concurrent bool) (*c15exec, sched.
 					}
 				}
 			}
+			// the same file through the typed reader (struct fast path for the fixed
+			// shapes, Schema.Reconstruct for the dynamic ones): schema caches and the
+			// process-wide value buffers are shared with the other tasks
+			tr := tsh.NewReader(&gatedFile{data: sink.buf, s: sp})
+			typed := 0
+			for {
+				yield("api", "typed-read")
+				vals, _, err := tr.Read(b.next())
+				for _, v := range vals {
+					if typed >= tdata.Len() {
+						fail("typed read delivers more than the %d rows written", tdata.Len())
+						tr.Close()
+						return
+					}
+					if !tsh.EqualValues(tdata.Value(typed), v) {
+						fail("typed row %d differs: wrote %+v read %+v", typed, tdata.Value(typed), v)
+						tr.Close()
+						return
+					}
+					typed++
+				}
+				if err != nil {
+					if !errors.Is(err, io.EOF) {
+						fail("typed read: %v", err)
+					}
+					break
+				}
+				if len(vals) == 0 {
+					fail("typed read returned (0, nil)")
+					break
+				}
+			}
+			tr.Close()
+			if typed != tdata.Len() && ex.errs[ti] == "" {
+				fail("typed read delivered %d of %d rows", typed, tdata.Len())
+				return
+			}
 			bytesPart := shortHash(sink.buf)
 			if tsh.HasMap() {
 				bytesPart = "map" // map iteration order is excepted
 			}
-			ex.results[ti] = "bytes=" + bytesPart + " rows=" + fmt.Sprint(len(got))
+			ex.results[ti] = "bytes=" + bytesPart + " rows=" + fmt.Sprint(len(got)) + " typed=" + fmt.Sprint(typed)
 		case "rows", "async-rows":
 			rgs := sharedFile.RowGroups()
 			if len(rgs) == 0 {
